@@ -1,12 +1,14 @@
 (* Check/C10Check.v -- correspondence and oracle for C10 (set operations). *)
-From PraatIO Require Export Check.Common.
+From PraatIO Require Export Check.Common Textgrid.TgModel.
 From PraatIO Require Import Tier.CtorProofs Tier.CropProofs Tier.SetProofs.
 
 Inductive setop := OUnion | ODifference | OIntersection | OMergeLabels.
 
 Inductive C10case :=
 | SetI (op : setop) (A B : itier) (out : res itier)
-| UnionP (A B : ptier) (out : res ptier).
+| UnionP (A B : ptier) (out : res ptier)
+(* Textgrid.mergeTiers: the textgrid that came back *)
+| TgMergeC (g : tg) (sel : option (list text)) (keep : bool) (out : res tg).
 
 Definition run_setop (op : setop) (A B : itier) : res itier :=
   match op with
@@ -20,6 +22,7 @@ Definition C10corr (c : C10case) : bool :=
   match c with
   | SetI op A B out => res_eqb itier_eqb (run_setop op A B) out
   | UnionP A B out => res_eqb ptier_eqb (union_p A B) out
+  | TgMergeC g sel keep out => res_eqb tg_eqb (tg_merge g sel keep) out
   end.
 
 (* ---- specifications from the property text ---- *)
@@ -96,14 +99,43 @@ Definition punion_oracle (A B : ptier) (out : res ptier) : bool :=
   | Ok t' => text_eqb (pname t') (pname A) && pents_eqb (pents t') (punion_spec_ents (pents A) (pents B))
   end.
 
+(* Textgrid.mergeTiers: the unselected tiers (if kept) as they were and in their order, then one
+   interval tier named after the first selected interval tier covering every selected interval,
+   then one point tier named after the first selected point tier holding every selected point time *)
+Definition merge_oracle (g : tg) (sel : option (list text)) (keep : bool) (out : res tg) : bool :=
+  let names_sel := match sel with Some l => l | None => names g end in
+  let picked := filter_map (fun n => find_tier n (tiers g)) names_sel in
+  let its := filter_map (fun t => match t with TI x => Some x | TP _ => None end) picked in
+  let pts := filter_map (fun t => match t with TP x => Some x | TI _ => None end) picked in
+  let others := if keep then filter (fun t => negb (name_in (tname t) names_sel)) (tiers g) else [] in
+  match out with
+  | Err _ => negb (forallb (fun n => name_in n (names g)) names_sel)
+  | Ok g' =>
+      let k := length others in
+      list_eqb tier_eqb (firstn k (tiers g')) others
+      && (match its, pts, skipn k (tiers g') with
+          | [], [], [] => true
+          | a :: _, [], [TI m] => text_eqb (iname m) (iname a)
+          | [], b :: _, [TP q] => text_eqb (pname q) (pname b)
+          | a :: _, b :: _, [TI m; TP q] => text_eqb (iname m) (iname a) && text_eqb (pname q) (pname b)
+          | _, _, _ => false
+          end)
+      && forallb (fun t' => match t' with
+                            | TI m => forallb (fun a => forallb (fun i => existsb (fun j => (istart j <=? istart i) && (iend i <=? iend j)) (ients m)) (ients a)) its
+                            | TP q => forallb (fun b => forallb (fun p => existsb (fun r => ptime r =? ptime p) (pents q)) (pents b)) pts
+                            end) (skipn k (tiers g'))
+  end.
+
 Definition C10oracle (c : C10case) : bool :=
   match c with
   | SetI op A B out => set_oracle op A B out
   | UnionP A B out => punion_oracle A B out
+  | TgMergeC g sel keep out => merge_oracle g sel keep out
   end.
 
 Definition C10hyp (c : C10case) : bool :=
   match c with
   | SetI _ A B _ => wf_itierb A && wf_itierb B
   | UnionP A B _ => wf_ptierb A && wf_ptierb B
+  | TgMergeC _ _ _ _ => true
   end.
